@@ -119,7 +119,9 @@ func c04eSum(b []byte) uint64 {
 
 type c04eAuth struct{}
 
-func (c04eAuth) Authenticate(addr net.Addr, auth string, tx uint64) (bool, string) { return true, "c04e" }
+func (c04eAuth) Authenticate(addr net.Addr, auth string, tx uint64) (bool, string) {
+	return true, "c04e"
+}
 
 // in-memory target: records what the relay writes to it and echoes it
 type c04eEcho struct {
